@@ -98,6 +98,8 @@ static std::function<void()> handlerFor(std::shared_ptr<Ctx> cx, int k, std::sha
   };
 }
 
+static iora::core::TimerServicePool *g_pool = nullptr; // pool mode: the pool whose (single) service the case drives
+
 static void runOps(std::shared_ptr<Ctx> cx, TimerService &svc, const std::vector<std::string> &ops)
 {
   t_driverThread = true;
@@ -171,6 +173,15 @@ static void runOps(std::shared_ptr<Ctx> cx, TimerService &svc, const std::vector
       if (done) cx->lifeReturned.store(true, std::memory_order_release);
       cx->tr.add(vf::Ev("LifeRet").str("op", op).b("ok", r.success).b("closed", done));
     }
+    else if (op == "poolstop")
+    {
+      // TimerServicePool::stop() (pool mode only): every service of the pool is stopped, whatever state it is in
+      if (!g_pool) continue;
+      cx->tr.add(vf::Ev("LifeCall").str("op", "stop"));
+      g_pool->stop();
+      cx->lifeReturned.store(true, std::memory_order_release);
+      cx->tr.add(vf::Ev("LifeRet").str("op", "stop").b("ok", true).b("closed", true));
+    }
     else if (op == "restart")
     {
       // a full cycle: stop (logged like any stop), reset, start.  Timers that were still pending are gone with the reset;
@@ -214,10 +225,20 @@ static std::string runOne(const std::string &mode, const std::vector<std::string
     std::unique_ptr<iora::core::TimerServicePool> pool;
     std::unique_ptr<TimerService> own;
     TimerService *svc = nullptr;
+    g_pool = nullptr;
     if (mode == "pool")
     {
       pool = std::make_unique<iora::core::TimerServicePool>(2);
       svc = &pool->getService();
+      g_pool = pool.get();
+    }
+    else if (mode == "nostat")
+    {
+      // statistics off (as the DNS transport configures its retry timers): results of the API must not depend on it
+      iora::core::TimerServiceConfig cfg;
+      cfg.enableStatistics = false;
+      own = std::make_unique<TimerService>(cfg);
+      svc = own.get();
     }
     else
     {
@@ -229,6 +250,7 @@ static std::string runOne(const std::string &mode, const std::vector<std::string
     for (auto &kv : cx->timers) kv.second->released.store(true);
     cx->tr.add(vf::Ev("LifeCall").str("op", "destroy"));
     own.reset();
+    g_pool = nullptr;
     pool.reset();
     cx->lifeReturned.store(true, std::memory_order_release);
     cx->tr.add(vf::Ev("LifeRet").str("op", "destroy").b("ok", true).b("closed", true));
